@@ -34,6 +34,19 @@ func (m *Mutex) Lock() {
 	s.point(&Op{Kind: "lock", Desc: fmt.Sprintf("Mutex.Lock %p", m), Obj: m, Enabled: func() bool { m.reset(); return m.owner == 0 }})
 	m.owner = s.cur.ID + 1
 	s.cur.vc = joinVC(s.cur.vc, m.relVC)
+	s.held()
+}
+
+// TryLockUsed is set (by generated code) when the code under test calls TryLock / TryRLock somewhere. A
+// critical section without a blocking operation inside runs from Lock to Unlock without a scheduling point,
+// which is sound for blocking acquisitions (nobody can tell the difference) but hides the held lock from a
+// non-blocking attempt; with TryLockUsed every acquisition is followed by one more scheduling point.
+var TryLockUsed bool
+
+func (s *Sched) held() {
+	if TryLockUsed && !s.seq {
+		s.point(&Op{Kind: "held", Desc: "lock held", Enabled: func() bool { return true }})
+	}
 }
 
 func (m *Mutex) TryLock() bool {
@@ -108,6 +121,7 @@ func (m *RWMutex) Lock() {
 	}
 	m.owner = s.cur.ID + 1
 	s.cur.vc = joinVC(joinVC(s.cur.vc, m.relVC), m.rrelVC)
+	s.held()
 }
 
 func (m *RWMutex) Unlock() {
@@ -141,6 +155,7 @@ func (m *RWMutex) RLock() {
 	s.point(&Op{Kind: "rlock", Desc: fmt.Sprintf("RWMutex.RLock %p", m), Obj: m, Enabled: func() bool { m.reset(); return m.owner == 0 && !m.announced }})
 	m.readers++
 	s.cur.vc = joinVC(s.cur.vc, m.relVC)
+	s.held()
 }
 
 func (m *RWMutex) RUnlock() {
@@ -159,6 +174,37 @@ func (m *RWMutex) RUnlock() {
 	m.readers--
 	m.rrelVC = joinVC(m.rrelVC, s.cur.vc)
 	s.cur.tickVC()
+}
+
+// TryLock / TryRLock: non-blocking attempts (a visible operation each; they never wait).
+func (m *RWMutex) TryLock() bool {
+	s := S
+	if s == nil {
+		return m.real.TryLock()
+	}
+	m.reset()
+	s.point(&Op{Kind: "trylock", Desc: "RWMutex.TryLock", Enabled: func() bool { return true }})
+	if m.owner != 0 || m.readers > 0 || m.announced {
+		return false
+	}
+	m.owner = s.cur.ID + 1
+	s.cur.vc = joinVC(joinVC(s.cur.vc, m.relVC), m.rrelVC)
+	return true
+}
+
+func (m *RWMutex) TryRLock() bool {
+	s := S
+	if s == nil {
+		return m.real.TryRLock()
+	}
+	m.reset()
+	s.point(&Op{Kind: "trylock", Desc: "RWMutex.TryRLock", Enabled: func() bool { return true }})
+	if m.owner != 0 || m.announced {
+		return false
+	}
+	m.readers++
+	s.cur.vc = joinVC(s.cur.vc, m.relVC)
+	return true
 }
 
 // Free reports whether nobody holds the lock in any mode (scheduler hook use).
